@@ -82,7 +82,10 @@ def _gen():
     out.append("%s in [] or $c" % x)
   out += ["$s in ['x', '', $s]", "$s == ''", "$s != 'ab' and $c", "$s + 'x' == 'xx'", "$c is True", "$c is not None",
           "None is None", "$a / 2 > $b", "($a * 2 + $b) % 3 == 1  # trailing comment", "$a == 1 #c", "not $c",
-          "$c and $c or not $c", "[$a, $b] == [$b, $a]", "$a * $b == 0 or $a - $b != $b - $a", "user.x + rec.a < $b"]
+          "$c and $c or not $c", "[$a, $b] == [$b, $a]", "$a * $b == 0 or $a - $b != $b - $a", "user.x + rec.a < $b",
+          # non-ASCII text in front of a $name on the same line (byte offsets and character offsets differ there)
+          "$s == 'é' and $a == 1", "'Zoë' == $s or $b > $a", "user.x == 1 and 'ü' != $s  # cömment", "$s in ['é', 'ß'] and $c",
+          "'中' + $s == '中x' or $a == $b", "$a == 1 and $s == '\U0001F600' or $c", "'é' != 'e' and $c and $a < $b"]
   if THOROUGH:
     more = []
     for x, y in itertools.product(nums2, nums2[::5]):
